@@ -247,6 +247,8 @@ impl Runner {
                 let dst = self.w.nodes[to].addr;
                 self.w.inject(src, dst, data, "raw", u64::MAX, 0);
             }
+            "splice" => self.splice(s),
+            "vn" => self.version_negotiation(s),
             "mitm" => self.install_mitm(s),
             "spurious" => {
                 // harmless extra calls on a connection
@@ -295,6 +297,10 @@ impl Runner {
         let cls = if src == d.src { "dup" } else { "spoof" };
         let delay = s["delay"].as_u64().unwrap_or(0);
         let id = self.w.inject(src, d.dst, d.data.clone(), cls, d.id, delay);
+        if let Some(last) = self.w.net.last_mut() {
+            last.pkts = d.pkts.clone();
+            last.damage = d.damage;
+        }
         self.w.log(json!({"ev":"Replay","t":t,"ok":true,"orig":d.id,"id":id,"cls":cls,
             "src":addr_id(src)}));
     }
@@ -368,6 +374,69 @@ impl Runner {
         }
         self.w.log(json!({"ev":"ResetLike","t":t,"ok":true,"to":to,"c":c,"kind":kind,"len":len,
             "id":id,"exact":kind=="exact" && len >= 21}));
+    }
+
+    /// Cross-connection datagram: a genuine short-header datagram of client `from_n` with its
+    /// destination CID replaced by the one client `to_n` currently uses, sent from `to_n`'s address.
+    fn splice(&mut self, s: &Value) {
+        let from_n = s["from_n"].as_u64().unwrap_or(1) as usize;
+        let to_n = s["to_n"].as_u64().unwrap_or(2) as usize;
+        let nth = s["nth"].as_i64().unwrap_or(-1);
+        let t = self.w.now_us;
+        let fa = self.w.nodes[from_n].addr;
+        let ta = self.w.nodes[to_n].addr;
+        let scid_len = self.w.nodes[0].cid_len;
+        let short = |d: &&Dgram| !d.data.is_empty() && d.data[0] & 0x80 == 0;
+        let cands: Vec<&Dgram> = self.w.history.iter().filter(|d| d.src == fa).filter(short).collect();
+        let target: Option<Vec<u8>> = self
+            .w
+            .history
+            .iter()
+            .rev()
+            .find(|d| d.src == ta && !d.data.is_empty() && d.data[0] & 0x80 == 0)
+            .map(|d| d.data[1..1 + scid_len].to_vec());
+        let idx = if nth < 0 { cands.len() as i64 + nth } else { nth };
+        if idx < 0 || idx as usize >= cands.len() || target.is_none() || scid_len == 0 {
+            self.w.log(json!({"ev":"Splice","t":t,"ok":false}));
+            return;
+        }
+        let mut data = cands[idx as usize].data.clone();
+        data[1..1 + scid_len].copy_from_slice(&target.unwrap());
+        let dst = sim::server_addr();
+        let id = self.w.inject(ta, dst, data, "foreign", u64::MAX, 0);
+        self.w.log(json!({"ev":"Splice","t":t,"ok":true,"id":id}));
+    }
+
+    /// Version Negotiation packet towards a client: {"do":"vn","to":1,"own":false}
+    fn version_negotiation(&mut self, s: &Value) {
+        let to = s["to"].as_u64().unwrap_or(1) as usize;
+        let own = s["own"].as_bool().unwrap_or(false);
+        let t = self.w.now_us;
+        let addr = self.w.nodes[to].addr;
+        // the client's first Initial tells its source and destination CIDs
+        let first = self.w.history.iter().find(|d| d.src == addr && !d.data.is_empty() && d.data[0] & 0x80 != 0);
+        let Some(first) = first else {
+            self.w.log(json!({"ev":"Vn","t":t,"ok":false}));
+            return;
+        };
+        let b = &first.data;
+        let dl = b[5] as usize;
+        let dcid = b[6..6 + dl].to_vec();
+        let sl = b[6 + dl] as usize;
+        let scid = b[7 + dl..7 + dl + sl].to_vec();
+        let mut data = vec![0xc0u8 | 0x0a, 0, 0, 0, 0];
+        data.push(scid.len() as u8);
+        data.extend_from_slice(&scid);
+        data.push(dcid.len() as u8);
+        data.extend_from_slice(&dcid);
+        data.extend_from_slice(&0x0a1a_2a3au32.to_be_bytes());
+        data.extend_from_slice(&0xff00_0020u32.to_be_bytes());
+        if own {
+            data.extend_from_slice(&1u32.to_be_bytes());
+        }
+        let src = sim::server_addr();
+        let id = self.w.inject(src, addr, data, if own { "vn_own" } else { "vn" }, u64::MAX, 0);
+        self.w.log(json!({"ev":"Vn","t":t,"ok":true,"id":id,"own":own}));
     }
 
     /// {"do":"mitm","dir":"c2s"|"s2c","nth_short":k,"mode":"append"|"replace","hex":"..."}
